@@ -683,6 +683,11 @@ def finish(chk):
         seen.add(v[0])
     chk.violations = first + rest
     chk.extra["violation_keys"] = {k: sum(1 for x, _ in chk.violations if x == k) for k in sorted(seen)}
+    for fname, arg in sorted(set(MB.MUTATIONS if "MB" in globals() else __import__("metrics_bind").MUTATIONS)):
+        chk.violation("metric:modified-its-argument:%s:%s" % (fname, arg),
+                      dict(why="the caller's tensor was changed in place by the metric; a later metric on the same object "
+                               "(e.g. inside MetricEvaluator with a shared target=) sees a different state",
+                           occurrences=sum(1 for m in __import__("metrics_bind").MUTATIONS if m == (fname, arg))))
     return chk.finish()
 
 
